@@ -67,7 +67,7 @@ theorem addOp_eq (acl : Acl) (s : Store) (mk : Nat → List Nat → Entry) :
       match (s.addOp0 acl mk).2 with
       | .error _ => s.addOp0 acl mk
       | .ok e => ({ (s.addOp0 acl mk).1 with
-          localHeads := some (e.hash :: keptHeads s.localHeads (s.addOp0 acl mk).1.log) }, .ok e) := by
+          localHeads := some (e.hash :: keptHeads s.localHeads s.log) }, .ok e) := by
   unfold Store.addOp
   rcases h : s.addOp0 acl mk with ⟨s', r⟩
   cases r <;> rfl
@@ -92,8 +92,7 @@ theorem addOp_remoteHeads (acl : Acl) (s : Store) (mk : Nat → List Nat → Ent
 theorem addOp_localHeads (acl : Acl) (s : Store) (mk : Nat → List Nat → Entry) :
     (s.addOp acl mk).1.localHeads =
       if acl.canAppend (mk (appendTime s.log) (appendNext s.log)) then
-        some ((mk (appendTime s.log) (appendNext s.log)).hash ::
-          keptHeads s.localHeads (append acl.canAppend s.log mk).1)
+        some ((mk (appendTime s.log) (appendNext s.log)).hash :: keptHeads s.localHeads s.log)
       else s.localHeads := by
   have h2 := addOp0_snd acl s mk
   rw [append_snd] at h2
@@ -110,7 +109,7 @@ theorem addOp_localHeads (acl : Acl) (s : Store) (mk : Nat → List Nat → Entr
     split at h2
     · rename_i hc
       injection h2 with h2
-      simp only [hc, if_true, h2, addOp0_log]
+      simp only [hc, if_true, h2]
     · cases h2
 
 /-- the side conditions of a local write (those of `Step.appendOk`), needed only when the access
